@@ -99,6 +99,7 @@ func (s *stream) setOffset(vbID uint16, offset *models.Offset, dirty bool) {
 		if current, ok := s.offsets.Load(vbID); ok && current.SeqNo > offset.SeqNo {
 			return
 		}
+		verifHook("setoffset.checked")
 		s.offsets.Store(vbID, offset)
 		s.consumer.TrackOffset(vbID, offset)
 		if !dirty {
